@@ -19,6 +19,8 @@ func TestC02(t *testing.T) {
 	cfg := rsGenCfg{Rules: fullRuleCfg(), GRB: true, Vary: true}
 	check(t, 0, budget(6000, 80000), func(rt *rapid.T) {
 		c, rs := genRSCase(rt, cfg)
+		maybeFailingConditions(rt, c, rs)
+		maybeUsedBefore(rt, c, rs, cfg.Rules.State)
 		rep, v := runValidated(rt, c, "C02")
 		nt := rep.FlipsFT > 0 || (rep.EndedBy == "quiescence" && rep.Firings >= 2)
 		labels := append(featLabels(rs), "ended:"+rep.EndedBy, fmt.Sprintf("grb:%v", c.ViaGRB), "firings:"+bucket(rep.Firings))
